@@ -31,6 +31,21 @@ class Ctx:
     root = None
     pool = None
     reg = None
+    excs = None      # side channel: [name, message, innermost spil frame] of the exceptions of this request
+
+
+def _note_exc(ex):
+    """Where an exception came from (innermost frame inside the spil package): a side channel for reports and for
+    matching known findings by call site; never part of an observation."""
+    where = ""
+    tb = ex.__traceback__
+    while tb is not None:
+        fn = tb.tb_frame.f_code.co_filename.replace(os.sep, "/")
+        if "/spil/" in fn:
+            where = "%s:%s" % (fn.rsplit("/", 1)[-1], tb.tb_frame.f_code.co_name)
+        tb = tb.tb_next
+    if C.excs is not None and len(C.excs) < 6:
+        C.excs.append([type(ex).__name__, _s(str(ex))[:160], where])
 
 
 C = Ctx()
@@ -214,6 +229,7 @@ def canon(v, depth=0):
                 out.append(canon(x, depth + 1))
             return {"~it": out}
         except Exception as ex:  # exception while consuming: part of the observation
+            _note_exc(ex)
             return {"~it": out, "~exc": type(ex).__name__}
     cls = type(v).__name__
     d = {"~O": cls}
@@ -232,6 +248,7 @@ def observe(e):
     except BaseException as ex:
         if isinstance(ex, (KeyboardInterrupt, SystemExit)):
             raise
+        _note_exc(ex)
         return {"~exc": type(ex).__name__, "msg": _s(str(ex))[:200]}
 
 
@@ -350,6 +367,7 @@ def serve(root, r_fd, w_fd, knobs):
             if k == "eval":
                 faulthandler.dump_traceback_later(28, exit=True)
                 seams.reset_effects()
+                C.excs = []
                 if "store" in req:
                     try:
                         val = ev(req["e"])
@@ -358,13 +376,14 @@ def serve(root, r_fd, w_fd, knobs):
                     except BaseException as ex:
                         if isinstance(ex, (KeyboardInterrupt, SystemExit)):
                             raise
+                        _note_exc(ex)
                         obs = {"~exc": type(ex).__name__, "msg": _s(str(ex))[:200]}
                 else:
                     obs = observe(req["e"])
                 faulthandler.cancel_dump_traceback_later()
                 fired = dict(seams.S.fired)
                 seams.S.fired.clear()
-                _send(w_fd, {"obs": obs, "fx": seams.take_effects(), "fired": fired})
+                _send(w_fd, {"obs": obs, "fx": seams.take_effects(), "fired": fired, "excs": C.excs})
             elif k == "branch":
                 _send(w_fd, _branch(req))
             elif k == "knobs":
